@@ -268,7 +268,7 @@ def power_level_scan(ctx, w, rule):
         if pth.kind != "ret":
             continue
         conds = [(D.show_atom(a), t) for a, t in pth.conds]
-        nexts = [(a, t) for a, t in conds if a.startswith("Iterator::next(") and " is " in a and t]
+        nexts = [(a, t) for a, t in conds if re.match(r"^(?:\w+::)*next\(", a) and " is " in a and t]     # Iterator::next / iter::next / <I>::next
         if not nexts or nexts[-1][0].endswith(" is None"):
             continue                 # no loop, or the list was exhausted
         n_break += 1
